@@ -44,7 +44,7 @@ ASSUMPTIONS = [
     'expected line count of a text update = start + announced NLRI + withdrawn NLRI (+ raw) + end, or start + 1 route line + end for End-of-RIB; counts come from the intent for generated UPDATEs and from the decoded message otherwise',
     'down(reason): production only passes its own strings; hostile reasons are exercised too because the encoders document that they neutralise them',
 ]
-MANIFEST = {
+MANIFEST = {  # (pipe conservation: 200 KB of events through the real flush_write_queue() and a real pipe with a late, odd-sized reader)
     'level': 'exploration',
     'technique': 'runtime monitoring: real decoders -> real four API encoders -> real Processes.write, observed strings/bytes/exceptions judged by independent oracles (strict JSON parse, envelope schema, text line and character rules, shape non-interference under canary substitution)',
     'text': 'Generated, corpus, mutated and hand-built hostile messages that decode are rendered by Response.JSON/Text and Response.V4.JSON/Text '
